@@ -28,8 +28,9 @@ class Struct:
         self.derives_default = derives_default
 
 class Variant:
-    def __init__(self, name, shape, fields, discr=None):
+    def __init__(self, name, shape, fields, discr=None, src=None):
         self.name, self.shape, self.fields, self.discr = name, shape, fields, discr
+        self.src = src   # the discriminant as written (a constant expression); `discr` is its value
 
 class Enum:
     kind = 'enum'
@@ -156,7 +157,7 @@ def emit_enum(e, out):
         attrs.append("#[repr(%s)]" % e.repr)
     vs = []
     for v in e.variants:
-        d = (" = %d" % v.discr) if v.discr is not None else ""
+        d = (" = %s" % (v.src or str(v.discr))) if v.discr is not None else ""
         vs.append("    %s%s%s," % (v.name, fields_src(v.shape, v.fields, pub=False), d))
     out.append("#[derive(%s)]\n%s\npub enum %s {\n%s\n}" % (derives, "\n".join(attrs), e.name, "\n".join(vs)))
     if e.init:
@@ -310,6 +311,25 @@ def build_items(seed):
     perm = list(range(256)); rnd.shuffle(perm)
     items.append(Enum(fresh("E"), [Variant("V%d" % j, 'unit', [], perm[j]) for j in range(200)], use_discr=True))
     items.append(Enum(fresh("E"), [Variant("V%d" % j, 'unit' if j % 7 else 'tuple', [] if j % 7 else [Field("e0", "u8")], (37 * j + 11) % 256) for j in range(100)], use_discr=True, repr_="u8"))
+    # discriminants written as constant expressions (the value is what Rust assigns; an implicit
+    # discriminant after one is that value + 1, whatever the expression's operator precedence)
+    for use in (True, False):
+        items.append(Enum(fresh("E"), [Variant("A", 'unit', [], 4, "1 << 2"), Variant("B", 'unit', []), Variant("C", 'unit', [], 7, "10 - 3"), Variant("D", 'unit', [])], use_discr=use))
+        items.append(Enum(fresh("E"), [Variant("A", 'unit', [], 6, "2 * 3"), Variant("B", 'unit', []), Variant("C", 'unit', [], 32, "1 << 1 << 4"), Variant("D", 'unit', []), Variant("E", 'unit', [], 16, "0x10"), Variant("F", 'unit', [])], use_discr=use))
+        items.append(Enum(fresh("E"), [Variant("A", 'tuple', [Field("e0", "u8")], 64, "128 >> 1"), Variant("B", 'unit', []), Variant("C", 'named', [Field("x", "u16")])], use_discr=use, repr_="u8"))
+        items.append(Enum(fresh("E"), [Variant("A", 'unit', [], 2, "6 & 3"), Variant("B", 'unit', []), Variant("C", 'unit', [], 9, "1 | 8"), Variant("D", 'unit', []), Variant("E", 'unit', [], 20, "17 ^ 5"), Variant("F", 'unit', [])], use_discr=use))
+    # a type that is zero-sized in memory but not on the wire (one-variant enum: a tag byte), in the
+    # fixed-size containers that remain usable for zero-sized types
+    ez = fresh("E")
+    items.append(Enum(ez, [Variant("Only", 'unit', [])]))
+    items.append(Struct(fresh("Z"), 'named', [Field("a", "[%s; 3]" % ez, default="(l (v 0) (v 0) (v 0))"), Field("b", "[[%s; 2]; 2]" % ez, default="(l (l (v 0) (v 0)) (l (v 0) (v 0)))"),
+                                               Field("c", "(%s, [%s; 1])" % (ez, ez), default="(l (v 0) (l (v 0)))"), Field("d", "Option<[%s; 2]>" % ez, default="(v 0)"), Field("n", "u8")], derives_default=False))
+    # a skipped field *followed by* a serialized field of the same type, the type occurring nowhere else
+    # in the item (bookkeeping per field type that is updated before the skip check goes wrong only here)
+    items.append(Struct(fresh("S"), 'named', [Field("cached", "u64", skip=True), Field("id", "u32"), Field("total", "u64")]))
+    items.append(Struct(fresh("S"), 'tuple', [Field("e0", "i128", skip=True), Field("e1", "bool", default="false"), Field("e2", "i128")]))
+    items.append(Struct(fresh("S"), 'named', [Field("memo", "Vec<u16>", skip=True, default="(l)"), Field("k", "u8"), Field("items", "Vec<u16>", default="(l)"), Field("memo2", "Vec<u16>", skip=True, default="(l)")]))
+    items.append(Enum(fresh("E"), [Variant("A", 'named', [Field("cached", "i32", skip=True), Field("n", "u8"), Field("v", "i32")]), Variant("B", 'tuple', [Field("e0", "f64", skip=True), Field("e1", "f64")]), Variant("C", 'unit', [])]))
     # nesting enums and structs
     e_small = [it for it in items if it.kind == 'enum'][2].name
     items.append(Struct(fresh("N"), 'named', [Field("e", e_small), Field("es", "Vec<%s>" % e_small), Field("m", "BTreeMap<u8, %s>" % base[3].name)], derives_default=False))
